@@ -5,9 +5,9 @@
 
    Strings are byte lists; everything the library inspects is ASCII and
    non-ASCII runes are copied through, so on valid UTF-8 the byte-level
-   functions give the bytes Go gives.  Not modelled (excluded from the
-   correspondence and stated as hypotheses of the theorems): the
-   dollar-brace expansion check of Set / Load, comments on nodes, the
+   functions give the bytes Go gives.  Expansion of dollar-brace references
+   is disabled on both sides (DisableExpansion, repaired in /repo), so Set
+   and Load never inspect values.  Not modelled: comments on nodes, the
    non-default UnwrapScalar = false quoting, and unicode literals above the
    basic plane.  No proofs here. *)
 From YQ Require Import Base.Str.
